@@ -243,16 +243,16 @@ func registerOnetLevel() {
 // ---- clusters -------------------------------------------------------------------
 
 type cluster struct {
-	key     string
-	tcp     bool
-	lt      *onet.LocalTest
-	servers []*onet.Server
-	roster  *onet.Roster
-	tree    *onet.Tree
-	nodes   []*onet.TreeNode // by server index
-	up      []bool
-	nextID  int
-	caseNo  int
+	key      string
+	tcp      bool
+	lt       *onet.LocalTest
+	servers  []*onet.Server
+	roster   *onet.Roster
+	tree     *onet.Tree
+	nodes    []*onet.TreeNode // by server index
+	up       []bool
+	nextID   int
+	caseNo   int
 	selfInst *proto
 }
 
@@ -626,6 +626,7 @@ type clusterOut struct {
 	HadConn      []int  `json:"survivors_connected_to_victim"`
 	ToldWho      []int  `json:"survivors_told"`
 	FailedRun    int    `json:"failing_run_count"`
+	Zombie       []int  `json:"survivors_keeping_a_connection_to_the_dead_victim"`
 	Note         string `json:"note,omitempty"`
 }
 
@@ -730,6 +731,9 @@ func runClusterParent(in input, raw json.RawMessage) lib.Case {
 		tr = "tcp"
 	}
 	cl := fmt.Sprintf("cluster-%s:%s", tr, in.Moment)
+	if len(out.Zombie) > 0 {
+		cl += "+abandoned"
+	}
 	coq := fmt.Sprintf("CCluster %d %d %s %s %s %s", out.Canaries, out.CanariesDone, lib.Bool(out.Returned), lib.Bool(alive),
 		lib.Bool(out.Told), lib.Bool(out.AfterRestart))
 	var obs interface{} = out
@@ -947,6 +951,14 @@ func clusterScenario(in input) clusterOut {
 	out.Returned = waitUntil(func() bool {
 		return atomic.LoadInt64(&reg.sendsBeg) == atomic.LoadInt64(&reg.sendsEnd)
 	}, 30*time.Second)
+	// survivors that still hold a registered connection to the closed victim: the victim dialled
+	// them while shutting down and dropped the connection without closing it
+	time.Sleep(300 * time.Millisecond)
+	for i, s := range c.servers {
+		if i != v && s.Router.VerifConnections()[victim.ServerIdentity.GetID()] > 0 {
+			out.Zombie = append(out.Zombie, i)
+		}
+	}
 	// 5. restart, full run, canary
 	reg.Lock()
 	reg.hooks = map[string]func(p *proto){}
